@@ -204,6 +204,9 @@ def run_property(col, make_test, max_examples, tag='', stateful_step_count=None,
     import hypothesis
     from hypothesis.stateful import RuleBasedStateMachine, run_state_machine_as_test
     import hypothesis.errors as herr
+    import hypothesis.internal.conjecture.engine as _eng
+    # bound the time spent minimising one failure (Hypothesis' own cap is 300 s); a budget, not a verdict
+    _eng.MAX_SHRINKING_SECONDS = int(os.environ.get('VERIF_SHRINK_S', 40 if col.tier == 'quick' else 240))
     for rnd in range(MAX_ROUNDS + 1):
         col.target_sig = None
         col.last_failure = None
